@@ -561,7 +561,7 @@ fn catalogue_inner(prop: &str, t: Tier, seed: u64, out: &mut Vec<Entry>) {
             macro_rules! lin {
                 ($S:ty, $len:expr) => {{
                     let name = <$S as Sch>::NAME;
-                    for (id, m) in [("cols+v-symbolic", LcMut::ColsSymbolic), ("cols-symbolic", LcMut::ColsOnlySymbolic), ("v-stretch", LcMut::VStretch), ("wf-absent", LcMut::WfAbsent), ("wf+v-symbolic", LcMut::WfSymbolic), ("cols-dup", LcMut::ColsDup), ("path-otherleaf", LcMut::PathOtherLeaf), ("leaf-rotate", LcMut::LeafRotate)] {
+                    for (id, m) in [("cols+v-symbolic", LcMut::ColsSymbolic), ("cols-symbolic", LcMut::ColsOnlySymbolic), ("v-stretch", LcMut::VStretch), ("wf-absent", LcMut::WfAbsent), ("wf+v-symbolic", LcMut::WfSymbolic), ("cols-dup", LcMut::ColsDup), ("path-otherleaf", LcMut::PathOtherLeaf), ("leaf-rotate", LcMut::LeafRotate), ("cols-drop-last", LcMut::ColsDropLast), ("cols-none", LcMut::ColsNone)] {
                         let mut c = Cfg::new(std_size::<$S>(t, 0), vec![PolySpec::new($len).conc()]);
                         c.seed = seed;
                         c.sym_points = false;
@@ -658,6 +658,17 @@ fn catalogue_inner(prop: &str, t: Tier, seed: u64, out: &mut Vec<Entry>) {
                 let c = mk(Size::mv(2, 1, 0), vec![PolySpec::new(1).conc(), PolySpec::new(1).conc(), PolySpec::new(1).conc()]);
                 let c2 = c.clone();
                 let mut en = e("hyrax/open-masks-3p".into(), t, "point, challenge, every RNG draw of commit and open", "3 polynomials opened in one call, 2 variables".into(), move || c07::hyrax_open_masks(&c2)); en.funcs = f.clone(); out.push(en);
+                macro_rules! mixed {
+                    ($S:ty, $sz:expr) => {{
+                        let c = mk($sz, vec![PolySpec::new(2).hide(1), PolySpec::new(2), PolySpec::new(2).conc().hide(1), PolySpec::new(2).conc()]);
+                        let c2 = c.clone();
+                        let mut en = e(format!("{}/mixed-batch", <$S as Sch>::NAME), t, "coefficients, every RNG draw of the commit call", "one commit call over [hiding, plain, hiding, plain]".into(), move || c07::mixed_batch::<$S>(&c2)); en.funcs = f.clone(); if quick { en.lim.wall_s = 60.0; } out.push(en);
+                    }};
+                }
+                mixed!(Marlin, Size::uni(5, 4, 3));
+                mixed!(Sonic, Size::uni(5, 4, 3));
+                mixed!(Ipa, Size::uni(3, 3, 1));
+                mixed!(Pst13, Size::mv(2, 2, 1));
                 for h in [1usize, 2] {
                     let mut en = e(format!("kzg10/direct-h{}", h), t, "coefficients, blinding coefficients", format!("KZG10::commit, hiding bound {}", h), move || c07::kzg10_direct(h, seed)); en.funcs = f.clone(); out.push(en);
                 }
@@ -1008,6 +1019,27 @@ fn catalogue_inner(prop: &str, t: Tier, seed: u64, out: &mut Vec<Entry>) {
                     out.push(en);
                 }
             }
+            // verifier side of "exactly t columns": a proof with fewer columns (v and the well-formedness vector chosen
+            // freely) is not accepted for another value
+            macro_rules! fewer {
+                ($S:ty, $len:expr) => {{
+                    for (id, m) in [("verifier-cols-drop-last", LcMut::ColsDropLast), ("verifier-cols-none", LcMut::ColsNone)] {
+                        let mut c = Cfg::new(std_size::<$S>(t, 0), vec![PolySpec::new($len).conc()]);
+                        c.seed = seed;
+                        c.sym_points = false;
+                        c.sym_ch = false;
+                        let c2 = c.clone();
+                        let mut en = e(format!("{}/{}", <$S as Sch>::NAME, id), t, "opened combination v, well-formedness vector, claimed value", format!("{:?}; concrete-random polynomial and point", c.sz), move || c03::lincode::<$S>(&c2, m, false));
+                        en.funcs = f.clone();
+                        en.lim.deep_first = true;
+                        if quick { en.lim.wall_s = 45.0; }
+                        out.push(en);
+                    }
+                }};
+            }
+            fewer!(LigeroUni, 4);
+            fewer!(LigeroMl, 1);
+            fewer!(Brakedown, 1);
             for nv in if quick { vec![2usize, 4] } else { vec![2usize, 4, 6] } {
                 let mut sz = Size::mv(nv, 1, 0);
                 sz.ligero = (128, 2, true);
@@ -1097,6 +1129,13 @@ fn catalogue_inner(prop: &str, t: Tier, seed: u64, out: &mut Vec<Entry>) {
                     let c2 = c.clone();
                     add(format!("pst13/nv{}-deg{}{}", nv, deg, if hid.is_some() { "-hiding" } else { "" }), format!("{} variables degree {}", nv, deg), Box::new(move || c19::sizes::<Pst13>(&c2, |c, _| (1, c.sz.num_vars + c.polys[0].hiding.is_some() as usize), true)));
                 }
+            }
+            // symbolic coefficients: constants and polynomials that do not involve the last variable(s) are explored
+            for nv in if quick { vec![2usize, 3] } else { vec![2usize, 3, 4] } {
+                let mut c = Cfg::new(Size::mv(nv, 1, 0), vec![PolySpec::new(2)]);
+                c.seed = seed; c.rng_nonzero = true;
+                let c2 = c.clone();
+                add(format!("pst13/nv{}-deg1-symbolic-poly", nv), format!("{} variables degree 1, all coefficients symbolic", nv), Box::new(move || c19::sizes::<Pst13>(&c2, |c, _| (1, c.sz.num_vars), true)));
             }
             for nv in if quick { vec![2usize, 4] } else { vec![2usize, 4, 6, 8] } {
                 let mut c = Cfg::new(Size::mv(nv, 1, 0), vec![PolySpec::new(1).conc()]);
